@@ -37,14 +37,14 @@ type gDoc struct {
 }
 
 type bundleGen struct {
-	r     *R
-	feat  map[string]bool
-	docs  []*gDoc
-	opts  FlatOpts
-	plus  bool
-	depth int
+	r       *R
+	feat    map[string]bool
+	docs    []*gDoc
+	opts    FlatOpts
+	plus    bool
+	depth   int
 	maxDefs int
-	opIDs map[string]bool
+	opIDs   map[string]bool
 }
 
 func (g *bundleGen) on(f string) bool { return g.feat[f] }
@@ -304,7 +304,7 @@ func (g *bundleGen) chooseNames() {
 			name := base
 			switch g.r.Intn(3) {
 			case 1:
-				name = strings.ToUpper(base[:1]) + base[1:]
+				name = upperFirst(base)
 			case 2:
 				name = strings.ToLower(base)
 			}
@@ -321,7 +321,7 @@ func (g *bundleGen) chooseNames() {
 		if len(rd.defNames) > 0 {
 			base := rd.defNames[g.r.Intn(len(rd.defNames))]
 			cands := []string{base + "OAIGen", base + "OAIGen1", base + "Owner", base + "Items", base + "Tuple0",
-				strings.ToUpper(base[:1]) + base[1:] + "Owner", base + "AllOf1", base + "Data", base + "AdditionalProperties", base + "Anon"}
+				upperFirst(base) + "Owner", base + "AllOf1", base + "Data", base + "AdditionalProperties", base + "Anon"}
 			for i := 0; i < g.r.Range(1, 3); i++ {
 				c := g.r.Pick(cands)
 				if !contains(rd.defNames, c) {
@@ -341,6 +341,15 @@ func (g *bundleGen) chooseNames() {
 			}
 		}
 	}
+}
+
+func upperFirst(s string) string {
+	rs := []rune(s)
+	if len(rs) == 0 {
+		return s
+	}
+	rs[0] = unicode.ToUpper(rs[0])
+	return string(rs)
 }
 
 func contains(xs []string, s string) bool {
